@@ -12,6 +12,9 @@ import (
 
 type zzProbe struct{}
 
+// zzWork keeps the receiving node busy for a while (its Receive yields in the middle).
+type zzWork struct{}
+
 // zzBoom makes the receiving node panic (the engine restarts it).
 type zzBoom struct{}
 
@@ -54,6 +57,14 @@ type zzNode struct {
 func (n *zzNode) Receive(c *Context) {
 	t := n.t
 	id := c.PID().ID
+	// the node's own state is unsynchronised: whatever delivers to it - its own inbox worker, the spawner, a parent
+	// that is shutting down - must be ordered by happens-before with the previous delivery
+	zzrt.RaceAccess(n, true)
+	if _, busy := c.Message().(zzWork); busy {
+		zzrt.Yield()
+		zzrt.RaceAccess(n, true)
+		return
+	}
 	switch c.Message().(type) {
 	case Started:
 		t.gen[id]++
@@ -245,6 +256,13 @@ func ZZ_C08() {
 	}
 	if (mode == 0 || mode == 3) && third < 0 && victim < 0 {
 		t.bye = true
+	}
+	if mode == 3 {
+		// a child is busy with a message of its own when the root is told to stop
+		zzrt.RaceDetect(true)
+		zzrt.RaceWatch(true)
+		e.Send(t.kids[root.ID][0], zzWork{})
+		zzrt.Reach("child-busy-when-parent-stops")
 	}
 	if mode == 0 && third < 0 && victim < 0 && zzrt.Choose(2) == 1 {
 		// one child panics, once, while handling Stopped during the shutdown cascade
